@@ -60,6 +60,7 @@ type Engine struct {
 	lemmas    map[string]*Axiom
 	axPkg     map[*Axiom]*packages.Package
 	onwrites  map[string][]*OnWrite // "pkgpath.Type.field"
+	typedPkgs map[string]bool // packages whose contract file says `typedrefs`
 	typedRefs bool                  // typedrefs clause seen: allocation and typed reads record dyntype (typedrefs.go)
 	inlineObj map[string]bool       // "pkgpath.Type.field": struct-valued fields modelled as fixed sub-objects (inlineobj.go)
 	onsends   []*OnSend
@@ -72,6 +73,9 @@ type Engine struct {
 	heapElemType map[string]types.Type
 	sigByKey     map[string]*types.Signature
 }
+
+// currentPackID: the property whose pack is being checked ("" in `gsv fn` mode); see `onlyfor`.
+var currentPackID string
 
 func loadEngine(repo, verifDir string, pkgPatterns []string) (*Engine, error) {
 	e := &Engine{repo: repo, verifDir: verifDir, fset: token.NewFileSet(), pkgs: map[string]*packages.Package{},
@@ -144,6 +148,27 @@ func loadEngine(repo, verifDir string, pkgPatterns []string) (*Engine, error) {
 		if p.Syntax == nil {
 			continue
 		}
+		if len(cs.OnlyFor) > 0 {
+			// `onlyfor C01 C02 ...`: this package's contracts are visible only to the packs named (and to `gsv fn` runs that
+			// name the package itself); everywhere else calls into the package stay abstracted, as before the contracts existed
+			use := false
+			if currentPackID != "" {
+				for _, id := range cs.OnlyFor {
+					if id == currentPackID {
+						use = true
+					}
+				}
+			} else {
+				for _, rp := range pkgs {
+					if rp == p {
+						use = true
+					}
+				}
+			}
+			if !use {
+				continue
+			}
+		}
 		if err := e.addContractSet(cs, p); err != nil {
 			return nil, err
 		}
@@ -200,6 +225,12 @@ func (e *Engine) addContractSet(cs *ContractSet, p *packages.Package) error {
 	}
 	if cs.TypedRefs {
 		e.typedRefs = true
+		if e.typedPkgs == nil {
+			e.typedPkgs = map[string]bool{}
+		}
+		if p != nil {
+			e.typedPkgs[p.PkgPath] = true
+		}
 	}
 	for _, o := range cs.InlineObj {
 		if p == nil {
